@@ -17,11 +17,16 @@ ANCHORS = [("pipefunc/_pipeline/_base.py", ["Pipeline.subpipeline", "_find_nodes
                                             "Pipeline.graph", "Pipeline.topological_generations", "Pipeline.leaf_nodes",
                                             "Pipeline.defaults", "Pipeline.drop"]),
            ("pipefunc/map/_prepare.py", ["prepare_run", "_validate_complete_inputs"]),
-           ("pipefunc/map/_run.py", ["run_map", "_func_kwargs", "_execute_single", "_run_and_process_generation"])]
+           ("pipefunc/map/_run.py", ["run_map", "_func_kwargs", "_execute_single", "_run_and_process_generation",
+                                     "_load_from_store", "_dump_single_output"]),
+           ("pipefunc/map/_run_info.py", ["RunInfo.create", "_compare_to_previous_run_info", "RunInfo.init_store"]),
+           ("pipefunc/_utils.py", ["equal_dicts"])]
 RULE = ("the pipelines of C02 plus extra nullary / all-default / all-bound functions x requested output sets S (every "
         "single output, pairs, random larger sets) x provided name sets I (exact root cut, every arg combination of an "
         "output in S, interior-only, mixed, with surplus, with a missing name, empty) x {subpipeline(I, S), "
-        "map(output_names=S), map(auto_subpipeline=True), plain map}; scalar values, storage='dict', parallel=False; "
+        "map(output_names=S), map(auto_subpipeline=True), plain map} + two maps into ONE run folder (second with "
+        "cleanup=False: same inputs, valid cuts with a changed intermediate, changed / fewer roots); scalar values, "
+        "storage='dict' (file storage for the two-run cases), parallel=False; "
         "non-trivial = >= 2 functions; distinct by (kind, pipeline, I, S)")
 ASSUMPTIONS = list(c02.ASSUMPTIONS) + ["pipelines without MapSpecs (scalar values); storage='dict'; parallel=False",
                                        "call order inside Pipeline.map is not compared (the property speaks of the set of calls)"]
